@@ -53,6 +53,13 @@ theorem C13_merge_collision_witness :
     (Loader.vectorMerges ["density", "velocity_x", "velocity_y", "velocity_z", "velocity"] 3).1 =
       [("velocity", ["velocity_x", "velocity_y", "velocity_z"])] := by decide
 
+/-- negation witness for "the merge loses nothing": a name with two component positions whose families are both complete
+    (tensor components `T_x_x, T_x_y, T_y_x` in 2-D) is merged twice — into the same name — and listed twice for deletion;
+    the second `del` of the Python function raises KeyError, so `load()` fails on such a descriptor -/
+theorem C13_shared_component_witness :
+    (Loader.vectorMerges ["density", "T_x_x", "T_x_y", "T_y_x"] 2).1 = [("T_x", ["T_x_x", "T_y_x"]), ("T_x", ["T_x_x", "T_x_y"])] ∧
+    (Loader.vectorMerges ["density", "T_x_x", "T_x_y", "T_y_x"] 2).2.count "T_x_x" = 2 := by decide
+
 /-! ### vector assembly (`make_vector_arrays`): only existing variables are merged, and exactly the merged ones are deleted -/
 
 theorem mem_keep_or_append (c : String) (present : List String) (hp : c ∈ present) (b : Bool) (r : String) :
